@@ -66,6 +66,8 @@ def interp_zero_fill(repo, rep, rule):
 
 
 def run(repo, rep, tier):
+    from .round7b import hygiene
+    hygiene(repo, rep, "C08", ('wavespectra.core.utils', 'wavespectra.specarray'), falsy=True)
     rep.rule("R-C08-8", "(shared with C05) the regridding kernels flatten in index order only: spectrum values stay paired with their (freq, dir) nodes "
                         "whatever the memory layout of the input")
     from .shared import layout_independent_flattening
